@@ -49,6 +49,17 @@ def anchor_names() -> Set[str]:
       if isinstance(n, ast.Constant) and isinstance(n.value, str):
         for m in re.finditer(r'(?<![A-Za-z0-9])_[a-z][A-Za-z0-9_]*', n.value):
           out.add(m.group(0))
+  # private names the known-findings file keys on (a consistent rename must keep matching the entry)
+  try:
+    import json
+    kf = json.load(open(os.path.join(os.path.dirname(here), 'known_findings.json')))
+    for f in kf.get('findings', []):
+      if f.get('status') == 'known':
+        for k in list(f.get('keys', [])) + ([f['key']] if f.get('key') else []):
+          for m in re.finditer(r'(?<![A-Za-z0-9])_[a-z][A-Za-z0-9_]*', k.split('|', 1)[-1]):
+            out.add(m.group(0))
+  except (OSError, ValueError):
+    pass
   return out
 
 
